@@ -1417,102 +1417,3 @@ package dpt
 //@ func lemmaC07_DPT_251600(x DPT_251600)
 //@   props C07
 //@   exact
-
-//@ func lemmaF16rt(b1 byte, b2 byte, k uint8)
-//@   inline
-
-//@ func lemmaF16rt_e0(b1 byte, b2 byte)
-//@   props C06
-//@   exact
-//@   thorough
-//@   timeout 1500
-
-//@ func lemmaF16rt_e1(b1 byte, b2 byte)
-//@   props C06
-//@   exact
-//@   thorough
-//@   timeout 1500
-
-//@ func lemmaF16rt_e2(b1 byte, b2 byte)
-//@   props C06
-//@   exact
-//@   thorough
-//@   timeout 1500
-
-//@ func lemmaF16rt_e3(b1 byte, b2 byte)
-//@   props C06
-//@   exact
-//@   thorough
-//@   timeout 1500
-
-//@ func lemmaF16rt_e4(b1 byte, b2 byte)
-//@   props C06
-//@   exact
-//@   thorough
-//@   timeout 1500
-
-//@ func lemmaF16rt_e5(b1 byte, b2 byte)
-//@   props C06
-//@   exact
-//@   thorough
-//@   timeout 1500
-
-//@ func lemmaF16rt_e6(b1 byte, b2 byte)
-//@   props C06
-//@   exact
-//@   thorough
-//@   timeout 1500
-
-//@ func lemmaF16rt_e7(b1 byte, b2 byte)
-//@   props C06
-//@   exact
-//@   thorough
-//@   timeout 1500
-
-//@ func lemmaF16rt_e8(b1 byte, b2 byte)
-//@   props C06
-//@   exact
-//@   thorough
-//@   timeout 1500
-
-//@ func lemmaF16rt_e9(b1 byte, b2 byte)
-//@   props C06
-//@   exact
-//@   thorough
-//@   timeout 1500
-
-//@ func lemmaF16rt_e10(b1 byte, b2 byte)
-//@   props C06
-//@   exact
-//@   thorough
-//@   timeout 1500
-
-//@ func lemmaF16rt_e11(b1 byte, b2 byte)
-//@   props C06
-//@   exact
-//@   thorough
-//@   timeout 1500
-
-//@ func lemmaF16rt_e12(b1 byte, b2 byte)
-//@   props C06
-//@   exact
-//@   thorough
-//@   timeout 1500
-
-//@ func lemmaF16rt_e13(b1 byte, b2 byte)
-//@   props C06
-//@   exact
-//@   thorough
-//@   timeout 1500
-
-//@ func lemmaF16rt_e14(b1 byte, b2 byte)
-//@   props C06
-//@   exact
-//@   thorough
-//@   timeout 1500
-
-//@ func lemmaF16rt_e15(b1 byte, b2 byte)
-//@   props C06
-//@   exact
-//@   thorough
-//@   timeout 1500
